@@ -211,6 +211,54 @@ theorem collapseRows_inv (h : LawfulAmp α A) {ph : List Nat} (hph : PhaseTableC
         rw [hxk]; simpa using hpx
       · exact hdone j hj' r hr
 
+/-- the tableau `collapse` hands to `normalize`: rows `k < i` multiplied by row `i`, row `i` replaced by
+`(−1)^v Z_q`; it stabilizes `P_v ψ` -/
+theorem collapse_pre (h : LawfulAmp α A) {ph : List Nat} (hph : PhaseTableCorrect ph) (t t1 : Tab)
+    (ψ : List α) (hst : StabG A t ψ) (q i : Nat) (hq : q < t.n) (hi : i < t.n)
+    (hxi : ∃ r, t.rows[i]? = some r ∧ xAt r q = true)
+    (hlater : ∀ k, i < k → k < t.n → ∃ r, t.rows[k]? = some r ∧ xAt r q = false)
+    (v : Bool) (ht1 : Tab.collapseRows ph i q (List.range i) t = .ok t1) :
+    t1.n = t.n ∧ t1.rows.length = t.n ∧ t1.signs.length = t.n ∧
+    StabG A ⟨t1.n, t1.rows.set i (zRow t1.n q), t1.signs.set i v⟩ (project t.n q v ψ) := by
+  obtain ⟨ri, hri, hxri⟩ := hxi
+  have hwf := wf_of_stabG t ψ hst
+  obtain ⟨hg1, hr1i, hs1i, hkeep, hdone⟩ := collapseRows_inv h hph t i q ri hxri hq (List.range i) t t1
+    (fun k hk => by rw [List.mem_range] at hk; omega) List.nodup_range ⟨SameGroupG.refl t, rfl, hwf⟩ hri ht1
+  obtain ⟨sg1, hn1, hwf1⟩ := hg1
+  have hst1 : StabG A t1 ψ := (sg1 ψ).mpr hst
+  obtain ⟨hψ, h2, h3, h4⟩ := hst1
+  refine ⟨hn1, by rw [h2, hn1], by rw [h3, hn1], ?_⟩
+  refine ⟨by rw [project_length, hψ], by simp [h2], by simp [h3], ?_⟩
+  intro k s r hs hr
+  simp only [List.getElem?_set] at hs hr
+  by_cases hki : i = k
+  · subst hki
+    rw [if_pos rfl] at hs hr
+    have hil : i < t1.rows.length := by rw [h2, hn1]; exact hi
+    have hil' : i < t1.signs.length := by rw [h3, hn1]; exact hi
+    simp only [hil, hil', if_true] at hs hr
+    cases hs; cases hr
+    refine ⟨by simp [zRow], ?_⟩
+    have := zRow_fixes_project (A := A) h t1.n q (by rw [hn1]; exact hq) ψ hψ v
+    rw [hn1] at this ⊢
+    exact this
+  · rw [if_neg hki] at hs hr
+    obtain ⟨hrl, hfix⟩ := h4 k s r hs hr
+    have hk : k < t.n := by
+      have := (List.getElem?_eq_some_iff.mp hr).1
+      rw [h2, hn1] at this; exact this
+    have hx : xAt r q = false := by
+      by_cases hlt : k < i
+      · exact hdone k (List.mem_range.mpr hlt) r hr
+      · have hgt : i < k := by omega
+        obtain ⟨r', hr', hx'⟩ := hlater k hgt hk
+        obtain ⟨e1, _⟩ := hkeep k (by rw [List.mem_range]; omega)
+        rw [e1, hr'] at hr; cases hr; exact hx'
+    refine ⟨hrl, ?_⟩
+    have := row_fixes_project (A := A) s r q (by rw [hrl, hn1]; exact hq) hx ψ (by rw [hrl]; exact hψ) hfix v
+    rw [hrl, hn1] at this
+    exact this
+
 /-- **`collapse` is sound, all `n`.**  If `t` stabilizes `ψ`, row `i` is the last row with X/Y on qubit `q`
 (what `measure` reports as `Random(i)`), then a returning `collapse(i, q, v)` yields a tableau that stabilizes
 the projected vector `P_v ψ`. -/
@@ -220,56 +268,16 @@ theorem collapse_stabilizes (h : LawfulAmp α A) {ph : List Nat} (hph : PhaseTab
     (hlater : ∀ k, i < k → k < t.n → ∃ r, t.rows[k]? = some r ∧ xAt r q = false)
     (v : Bool) (hok : t.collapse ph i q v = .ok t') :
     StabG A t' (project t.n q v ψ) ∧ t'.n = t.n := by
-  obtain ⟨ri, hri, hxri⟩ := hxi
-  have hwf := wf_of_stabG t ψ hst
   simp only [Tab.collapse, bind] at hok
   obtain ⟨t1, ht1, hok⟩ := bind_ok hok
-  obtain ⟨hg1, hr1i, hs1i, hkeep, hdone⟩ := collapseRows_inv h hph t i q ri hxri hq (List.range i) t t1
-    (fun k hk => by rw [List.mem_range] at hk; omega) List.nodup_range ⟨SameGroupG.refl t, rfl, hwf⟩ hri ht1
-  obtain ⟨sg1, hn1, hwf1⟩ := hg1
-  have hst1 : StabG A t1 ψ := (sg1 ψ).mpr hst
+  obtain ⟨hn1, _, _, hst3⟩ := collapse_pre h hph t t1 ψ hst q i hq hi hxi hlater v ht1
   split at hok
   case isFalse => cases hok
-  rename_i hcond
   obtain ⟨t3, ht3, hok⟩ := bind_ok hok
   simp only [Tab.setSign] at ht3
   split at ht3
   case isFalse => cases ht3
-  rename_i hsl
   cases ht3
-  obtain ⟨hψ, h2, h3, h4⟩ := hst1
-  -- the tableau before `normalize`
-  have hst3 : StabG A ⟨t1.n, t1.rows.set i (zRow t1.n q), t1.signs.set i v⟩ (project t.n q v ψ) := by
-    refine ⟨by rw [project_length, hψ], by simp [h2], by simp [h3], ?_⟩
-    intro k s r hs hr
-    simp only [List.getElem?_set] at hs hr
-    by_cases hki : i = k
-    · subst hki
-      rw [if_pos rfl] at hs hr
-      have hil : i < t1.rows.length := by rw [h2, hn1]; exact hi
-      have hil' : i < t1.signs.length := by rw [h3, hn1]; exact hi
-      simp only [hil, hil', if_true] at hs hr
-      cases hs; cases hr
-      refine ⟨by simp [zRow], ?_⟩
-      have := zRow_fixes_project (A := A) h t1.n q (by rw [hn1]; exact hq) ψ hψ v
-      rw [hn1] at this ⊢
-      exact this
-    · rw [if_neg hki] at hs hr
-      obtain ⟨hrl, hfix⟩ := h4 k s r hs hr
-      have hk : k < t.n := by
-        have := (List.getElem?_eq_some_iff.mp hr).1
-        rw [h2, hn1] at this; exact this
-      have hx : xAt r q = false := by
-        by_cases hlt : k < i
-        · exact hdone k (List.mem_range.mpr hlt) r hr
-        · have hgt : i < k := by omega
-          obtain ⟨r', hr', hx'⟩ := hlater k hgt hk
-          obtain ⟨e1, _⟩ := hkeep k (by rw [List.mem_range]; omega)
-          rw [e1, hr'] at hr; cases hr; exact hx'
-      refine ⟨hrl, ?_⟩
-      have := row_fixes_project (A := A) s r q (by rw [hrl, hn1]; exact hq) hx ψ (by rw [hrl]; exact hψ) hfix v
-      rw [hrl, hn1] at this
-      exact this
   obtain ⟨sg, hn, _⟩ := normalize_inv h hph _ t' (wf_of_stabG _ _ hst3) hok
   exact ⟨(sg _).mpr hst3, hn.trans hn1⟩
 
